@@ -16,6 +16,8 @@ ASSUMPTIONS = [
     'so that directory permission bits matter; ownership, ACLs, file flags are not compared',
     'xattrs, sparse-hole detection (FIEMAP/SEEK_HOLE) and the allocation unit are compared by the differential only',
     'symlink modes -L/-H and traversal filters are not modelled (only -P, the default, is)',
+    'xar archives are read back through a sequential source: from a seekable file the xar reader fails for some heap '
+    'offsets ("Decompressed size error", present in the unchanged tree, see corpus/C12/untriaged-xar-seekable.txt)',
     'formats driven: pax, gnutar, cpio newc, zip, 7zip, xar; iso9660 (needs rockridge=strict, has no entry for ".") and '
     'mtree (metadata only) are not driven; paths stay below PATH_MAX (names up to NAME_MAX, depth bounded)',
 ]
@@ -242,10 +244,6 @@ class TreeEng(Engine):
         ops = []
         lib_fmts = ['pax', 'gnutar', 'newc'] if tier == 'quick' else list(FORMATS)
         ops.append('walk')
-        if big_tree:
-            # see corpus/C12/untriaged-xar-seekable.txt: a large tree read back from a seekable xar file makes the xar
-            # reader fail ("Decompressed size error"); not minimised, not modelled -> xar only on trees up to 30 objects
-            lib_fmts = [f for f in lib_fmts if f != 'xar']
         for fmt in rng.sample(lib_fmts, 2 if tier == 'quick' else 4):
             flags = rng.choice(['pt', 'pts', 'pt', 'pts', 't', 'p', 'ptsx'])
             if fmt in ('zip', '7zip') and 'p' not in flags:
